@@ -57,6 +57,7 @@ PPTX_FEATURES = {
     "multi-image-slides": "images on several slides (numbering must run 1..n) (twin: all images on one slide)",
     "line-break": "a:br between two runs (twin: separate paragraphs)",
     "empty-table": "a table whose cells are all empty between two filled tables (twin: its first cell is filled)",
+    "merged-cells": "a 3x3+ slide table with a horizontal (gridSpan + hMerge) and a vertical (rowSpan + vMerge) merge: the continuation cells are grid cells (twin: the same table without merges)",
     "overlaid-shapes": "text boxes stacked on exactly the same offset, texts in reverse alphabetical order (twin: distinct offsets)",
 }
 XLSX_FEATURES = {
@@ -467,17 +468,33 @@ def build_pptx(seed: int, feature: str | None = None, twin: bool = False):
         sid = 2
         empty = rng.random() < 0.12 and s != feature_slide and n_slides > 1
 
-        def add_table(all_empty=False, first_filled_only=False):
-            """A table graphic frame on the current slide; all_empty: every cell empty; first_filled_only: its control twin."""
+        def add_table(all_empty=False, first_filled_only=False, merged=None):
+            """A table graphic frame on the current slide; all_empty: every cell empty; first_filled_only: its control twin;
+            merged: True = (0,0) spans two columns and (1,cols-1) two rows, False = the same cells without merge attributes."""
             nonlocal sid, y
             rows, cols = rng.randint(1, 3), rng.randint(1, 3)
             if all_empty or first_filled_only:
                 rows, cols = max(rows, 2), max(cols, 2)
+            if merged is not None:
+                rows, cols = rng.randint(3, 4), rng.randint(3, 4)
             grid, trs = [], []
             for i in range(rows):
                 grow, tcs = [], []
                 for j in range(cols):
                     blank = (rng.random() < 0.12 and (i or j)) if not (all_empty or first_filled_only) else not (first_filled_only and i == 0 and j == 0)
+                    if merged is not None:
+                        anchor = {(0, 0): ' gridSpan="2"', (1, cols - 1): ' rowSpan="2"'}.get((i, j))
+                        cont = {(0, 1): ' hMerge="1"', (2, cols - 1): ' vMerge="1"'}.get((i, j))
+                        if cont:
+                            tcs.append(f"<a:tc{cont if merged else ''}><a:txBody><a:bodyPr/><a:p/></a:txBody><a:tcPr/></a:tc>")
+                            grow.append({"empty": True})
+                            continue
+                        if anchor:
+                            t = toks("c", 1, 2)
+                            tcs.append(f"<a:tc{anchor if merged else ''}><a:txBody><a:bodyPr/>{_ap(_ar(' '.join(t)))}</a:txBody><a:tcPr/></a:tc>")
+                            grow.append({"toks": t})
+                            continue
+                        blank = False
                     if blank:
                         tcs.append("<a:tc><a:txBody><a:bodyPr/><a:p/></a:txBody><a:tcPr/></a:tc>")
                         grow.append({"empty": True})
@@ -567,6 +584,8 @@ def build_pptx(seed: int, feature: str | None = None, twin: bool = False):
                     shapes.append(sp(_ap(_ar(word + " " + " ".join(toks("x", 1, 2)))), ph=None, name="TextBox"))
                 # (shapes of different kinds on one offset are not claimed: the reader orders by position and, within a
                 #  position, collects text shapes before graphic frames - a reading-order choice the property leaves open)
+            elif feature == "merged-cells":
+                add_table(merged=not twin)
             elif feature == "empty-table":
                 add_table()
                 add_table(all_empty=not twin, first_filled_only=twin)
